@@ -10,7 +10,8 @@ def run(tier, rng, C):
     n = 300 if tier == 'quick' else 15000
     cases = []
     for i in range(n):
-        inv, names, incl = G.include_graph_inv(rng, missing=0.0, conflicts=False, refs=0.15)
+        inv, names, incl = G.include_graph_inv(rng, missing=0.0, conflicts=False, refs=0.3 if i % 2 else 0.15,
+                                                 sel_relative=0.8 if i % 2 else 0.0)
         inv.ignore = rng.random() < 0.7
         inv.patterns = rng.choice(PATTERNS)
         node = sorted(inv.nodes)[0]
@@ -84,6 +85,25 @@ def run(tier, rng, C):
         cases.append({'id': cid, 'line': G.inv_line(cid, inv, G.op_node('n1')), 'show': G.show_inv(inv, 'node n1'),
                       'nontrivial': True, 'role': 'base'})
 
+    # an include entry whose reference renders to a RELATIVE name of an existing class, under settings whose
+    # patterns match the relative spelling: the class exists, so it is merged whatever the settings say
+    for i in range(60 if tier == 'quick' else 2000):
+        inv = G.Inv()
+        inv.ignore = rng.random() < 0.85
+        inv.patterns = rng.choice([['.*'], ['^\\.'], ['b$'], ['^\\.+b$', 'nope']])
+        d = rng.choice([('x',), ('x', 'y'), ()])
+        rel = rng.choice(['.b', '.b', '..b'] if len(d) == 2 else ['.b'])
+        tgt = d[:len(d) - (len(rel) - 2)] + ('b.yml',)
+        inv.classes[('defs.yml',)] = G.doc([], [], ('m', [(S('sibling'), S(rel)), (S('trace'), L(S('defs')))]))
+        inv.classes[d + ('a.yml',)] = G.doc(['${sibling}'], ['aa'], ('m', [(S('trace'), L(S('a')))]))
+        inv.classes[tgt] = G.doc([], ['ba'], ('m', [(S('from_b'), S('b')), (S('trace'), L(S('b')))]))
+        inv.nodes[('n1.yml',)] = G.doc(['defs', '.'.join(d + ('a',))] + (['${sibling}'] if rng.random() < 0.3 else []), [],
+                                       ('m', [(S('trace'), L(S('NODE')))]))
+        inv.universe.update(['defs', 'b', 'x.b', 'x.y.b', 'x.a', 'x.y.a', 'a', '.b', '..b'])
+        cid = C.case_id('e', i)
+        cases.append({'id': cid, 'line': G.inv_line(cid, inv, G.op_node('n1')), 'show': G.show_inv(inv, 'node n1'),
+                      'nontrivial': True, 'role': 'base'})
+
     # an existing class whose document cannot be loaded is an error under every setting, never skipped
     for i in range(40 if tier == 'quick' else 1500):
         inv = G.Inv()
@@ -147,7 +167,7 @@ def run(tier, rng, C):
                 fails.append({'key': 'missing-class-handling', 'severity': 'fail', 'show': c['show'], 'lines': [c['line']],
                               'reason': bad, 'model': C.describe(mobs.get(c['id'], '')), 'impl': C.describe(o), 'size': len(c['line'])})
         return fails
-    rule = ('%d triples: a random include graph under a random (ignore flag x pattern list) setting, its twin with one missing '
+    rule = ('%d triples: a random include graph (half of them with include entries whose reference renders to a relative name of an existing class) under a random (ignore flag x pattern list) setting, its twin with one missing '
             'class inserted at a random position of a random class or of the node, and the same inventory under the plain '
             'setting; oracle: ignored -> identical parameters/applications and class list plus the name; not ignored -> error '
             'naming the class; settings never change an inventory without missing classes; non-trivial = the twin with the '
